@@ -63,8 +63,12 @@ SubClose == subClosed' = subClosed + 1 /\ UNCHANGED <<msg, st, closing, okClosed
 PubClose == pubClosed' = pubClosed + 1 /\ UNCHANGED <<msg, st, closing, okClosed, timedOut, pend, subClosed, runRet, tcall>>
 
 \* Run returns only after the close has completed, never while Close is still waiting for handlers
-RunRet(states) == /\ ~runRet /\ closing
-                  /\ timedOut \/ Graceful(Sampled(states))
+\* (Close closes closedCh before it returns: Run may be seen returning before the timed-out Close call is)
+RunRet(states, t, timeout) ==
+                  /\ ~runRet /\ closing
+                  /\ IF timedOut THEN TRUE
+                     ELSE IF \E i \in pend : t >= tcall[i] + timeout THEN TRUE
+                     ELSE Graceful(Sampled(states))
                   /\ runRet' = TRUE /\ st' = Sampled(states)
                   /\ UNCHANGED <<msg, closing, okClosed, timedOut, pend, subClosed, pubClosed, tcall>>
 
